@@ -1006,21 +1006,65 @@ def A17_mass_guess(repo, clause):
         if isinstance(b, ast.Assign) and any(x is c for x in ast.walk(b)):
             tgt = b.targets[0].id if isinstance(b.targets[0], ast.Name) else None
     ok = False
+    recognised = False
     detail = "fallback handler not recognised"
+
+    def _one_based_strings(v):
+        """(source text, first number) when v builds the strings str(k), str(k+1), ... one per entry of a sequence; None otherwise"""
+        if isinstance(v, ast.ListComp) and len(v.generators) == 1 and not v.generators[0].ifs:
+            g = v.generators[0]
+            elt = v.elt
+            if not (isinstance(elt, ast.Call) and call_name(elt) == "str" and len(elt.args) == 1):
+                return None
+            if isinstance(g.iter, ast.Call) and call_name(g.iter) == "range" and isinstance(g.target, ast.Name):
+                ra = g.iter.args
+                lo = 0 if len(ra) == 1 else const_value(ra[0])
+                hi = ra[0] if len(ra) == 1 else (ra[1] if len(ra) == 2 else None)
+                if hi is None or not isinstance(lo, int):
+                    return None
+                # hi = len(X) + lo
+                hi_nf = nf(hi)
+                src = None
+                for c_ in ast.walk(hi):
+                    if isinstance(c_, ast.Call) and call_name(c_) == "len" and c_.args:
+                        want = nf(ast.parse("len(%s) + %d" % (ast.unparse(c_.args[0]), lo), mode="eval").body) if lo else nf(c_)
+                        if hi_nf == want:
+                            src = ast.unparse(c_.args[0])
+                if src is None:
+                    return None
+                # element: str(i + d)
+                e0 = elt.args[0]
+                d = None
+                if isinstance(e0, ast.Name) and e0.id == g.target.id:
+                    d = 0
+                elif isinstance(e0, ast.BinOp) and isinstance(e0.op, ast.Add):
+                    for x_, y_ in ((e0.left, e0.right), (e0.right, e0.left)):
+                        if isinstance(x_, ast.Name) and x_.id == g.target.id and isinstance(const_value(y_), int):
+                            d = const_value(y_)
+                if d is None:
+                    return None
+                return src, lo + d
+            if isinstance(g.iter, ast.Call) and call_name(g.iter) == "enumerate" and isinstance(g.target, ast.Tuple) and len(g.target.elts) == 2 and g.iter.args:
+                st_ = kwarg(g.iter, "start") or (g.iter.args[1] if len(g.iter.args) > 1 else None)
+                s0 = 0 if st_ is None else const_value(st_)
+                e0 = elt.args[0]
+                iv = g.target.elts[0].id if isinstance(g.target.elts[0], ast.Name) else None
+                if isinstance(s0, int) and isinstance(e0, ast.Name) and e0.id == iv:
+                    return ast.unparse(g.iter.args[0]), s0
+                if isinstance(s0, int) and isinstance(e0, ast.BinOp) and isinstance(e0.op, ast.Add) and isinstance(e0.left, ast.Name) and e0.left.id == iv and isinstance(const_value(e0.right), int):
+                    return ast.unparse(g.iter.args[0]), s0 + const_value(e0.right)
+        return None
     for h in t.handlers:
         for b in h.body:
-            if isinstance(b, ast.Assign) and isinstance(b.targets[0], ast.Name) and b.targets[0].id == tgt \
-                    and isinstance(b.value, ast.ListComp):
-                g = b.value.generators[0]
-                rng = isinstance(g.iter, ast.Call) and call_name(g.iter) == "range" and len(g.iter.args) == 1 and \
-                    isinstance(g.iter.args[0], ast.Call) and call_name(g.iter.args[0]) == "len"
-                src = ast.unparse(g.iter.args[0].args[0]) if rng else ""
-                all_types = rng and ("mass" in src) and not g.ifs
-                elt = b.value.elt
-                numbered = isinstance(elt, ast.Call) and call_name(elt) == "str" and nf(elt.args[0]) == nf(ast.parse("%s + 1" % g.target.id, mode="eval").body)
-                ok = all_types and numbered
-                detail = "handler replaces the elements of ALL types by their type numbers (range(len(%s)), str(i+1))=%s" % (src, ok)
-    obs.append(Ob("A17", clause, ld, t.handlers[0] if t.handlers else t, ok, detail, slot="fallback"))
+            if isinstance(b, ast.Assign) and isinstance(b.targets[0], ast.Name) and b.targets[0].id == tgt:
+                r_ = _one_based_strings(b.value)
+                if r_ is not None:
+                    recognised = True
+                    src, first = r_
+                    ok = "mass" in src and first == 1
+                    detail = "handler replaces the elements of ALL types by their type numbers: one string per entry of %s, numbered from %d%s" % (
+                        src, first, "" if ok else (" (type ids are 1-based: the fallback labels are off by one)" if first != 1 else " (not the mass table)"))
+    obs.append(Ob("A17", clause, ld, t.handlers[0] if t.handlers else t, ok, detail, slot="fallback", positive=recognised and not ok, undecided=not recognised))
     return obs
 
 
